@@ -31,6 +31,12 @@ def case_strategy(draw):
     if src == "gdstk":
         c["lib"] = draw(lg.library(ncells=(1, 5), path_kinds=("simple_fp", "simple_fp", "outline_fp", "simple_rp"), origin_mag=draw(st.sampled_from([0, 0, 1 << 16]))))
         c["max_points"] = draw(st.sampled_from([0, 0, 8]))
+        # layer / type numbers in the upper half of the 16-bit range (every reader must decode them the same way)
+        if draw(st.integers(0, 2)) == 0:
+            for cell in c["lib"]["cells"]:
+                for e in cell["polys"] + cell["labels"] + [el for p in cell["paths"] for el in p["els"]]:
+                    if draw(st.integers(0, 1)) == 0:
+                        e["tag"] = draw(st.sampled_from([[40000, 7], [2, 65535], [32768, 32768], [65535, 0]]))
     else:
         lc = draw(prop_c03.layout_case())
         c["layout"], c["choices"] = lc["layout"], lc["choices"]
@@ -183,7 +189,7 @@ def check(ctx, case):
     with open(path, "rb") as fh:
         data = fh.read()
     try:
-        dec = gdsref.strict_decode(data)
+        dec = gdsref.strict_decode(data, wide_numbers=True)
     except gdsref.FormatError as e:
         raise Violation("the strict decoder rejects the source file: %s" % e, case, None, None, lines)
     du, dm = float(dec["units"][0]), float(dec["units"][1])
@@ -282,7 +288,7 @@ def check(ctx, case):
     for i, (a, b) in enumerate(zip(data, newdata)):
         if a != b and i not in allowed:
             fail("rewriting the timestamps changed byte %d, outside every BGNLIB/BGNSTR data field" % i)
-    newdec = gdsref.strict_decode(newdata)
+    newdec = gdsref.strict_decode(newdata, wide_numbers=True)
     want = tsn * 2
     if newdec["bgnlib"] != want or any(s["bgnstr"] != want for s in newdec["structs"]):
         fail("after the rewrite BGNLIB/BGNSTR hold %s / %s, requested %s" % (newdec["bgnlib"], [s["bgnstr"] for s in newdec["structs"]][:3], want))
